@@ -186,8 +186,15 @@ func (w *world) gatedStream(start *int64, plan map[gatePoint]int, what string) {
 		}
 	}
 	if prefix && (!dummy || len(snap) > 0) {
-		w.viol("notif:committed-batch-not-delivered", "%s: the stream carried %d of the %d batches above its position (%v) and fell silent; missing from offset %d",
-			desc, len(snap)-i, len(want), want, want[len(snap)-i])
+		g.mu.Lock()
+		reads := g.reads
+		g.mu.Unlock()
+		wv := fmt.Sprint(want)
+		if len(wv) > 200 {
+			wv = wv[:200] + "..."
+		}
+		w.viol("notif:committed-batch-not-delivered", "%s: the stream carried %d of the %d retained batches above its position (%s) and then nothing for 300 ms "+
+			"while its dispatcher issued %d ReadNextNotifications calls; missing from offset %d", desc, len(snap)-i, len(want), wv, reads, want[len(snap)-i])
 		return
 	}
 	w.judgeStream(desc+" "+op, snap, want, dummy, qc)
